@@ -6,7 +6,10 @@ import (
 	"strings"
 	"time"
 
+	sasl "github.com/emersion/go-sasl"
 	"github.com/fluffle/goirc/client"
+
+	"verif/harness/memconn"
 )
 
 func init() {
@@ -109,6 +112,7 @@ func c10(c *Ctx) {
 	}
 	c.RunCases(cases)
 	c10Wire(c)
+	c10Sasl(c)
 }
 
 // c10Wire: the rule seen from the server's side. A client with flood protection on sends a burst over a real
@@ -117,6 +121,96 @@ func c10(c *Ctx) {
 // can only arrive later than the model's write time, never earlier; a late *first* line of a window would shrink the
 // window, so arrival k is shifted by k x 250 ms before judging (sound as long as a sleep overshoots by less than that;
 // a change that lets lines through more than 250 ms early is still seen).
+// c10Sasl: every line is charged - the lines of a SASL exchange too - and nothing the handshake does may leave flood
+// protection switched off. A client with SASL configured and protection on negotiates (in one variant the link drops
+// after `CAP ACK :sasl`, before any 903, and the same client connects again), then sends a burst; the arrival times
+// of ALL lines of the last connection are judged by the window predicate.
+func c10Sasl(c *Ctx) {
+	for v := 0; v < c.Pick(2, 4); v++ {
+		dropFirst := v%2 == 1
+		desc := fmt.Sprintf("SASL negotiation with flood protection on, then a burst of 7 lines (link dropped in mid-exchange first: %v)", dropFirst)
+		c.Journal("C10 " + desc)
+		sess, err := newSession(func(cfg *client.Config) {
+			cfg.Flood = false
+			cfg.EnableCapabilityNegotiation = true
+			cfg.Sasl = sasl.NewPlainClient("", "user", "pw")
+		}, nil)
+		if err != nil {
+			c.Res.Inconclusive++
+			continue
+		}
+		negotiate := func(srv *memconn.Conn, upTo int) bool {
+			from := 0
+			step := func(send string, wantPrefix string) bool {
+				if send != "" {
+					srv.SendLine(send)
+				}
+				i := srv.WaitLine(from, func(l string) bool { return strings.HasPrefix(l, wantPrefix) }, 30*time.Second)
+				if i < 0 {
+					return false
+				}
+				from = i + 1
+				return true
+			}
+			if !step("", "USER ") || !step(":irc.test CAP * LS :sasl", "CAP REQ") || !step(":irc.test CAP * ACK :sasl", "AUTHENTICATE PLAIN") {
+				return false
+			}
+			if upTo == 1 {
+				return true
+			}
+			return step("AUTHENTICATE +", "AUTHENTICATE ") && step(":irc.test 903 me :SASL authentication successful", "CAP END")
+		}
+		srv := sess.srv
+		t0 := time.Now()
+		if dropFirst {
+			if !negotiate(srv, 1) {
+				c.Res.Inconclusive++
+				sess.close()
+				continue
+			}
+			srv.EOF()
+			if !waitFor(func() bool { return !sess.conn.Connected() }, 10*time.Second) || sess.conn.Connect() != nil {
+				c.Res.Inconclusive++
+				continue
+			}
+			select {
+			case srv = <-sess.conns:
+			case <-time.After(5 * time.Second):
+				c.Res.Inconclusive++
+				continue
+			}
+			sess.srv = srv
+		}
+		if !negotiate(srv, 2) {
+			c.Res.Inconclusive++
+			sess.close()
+			continue
+		}
+		before := len(srv.Lines())
+		go func() {
+			for i := 0; i < 7; i++ {
+				sess.conn.Raw(fmt.Sprintf("PRIVMSG #c :burst line %d %s", i, strings.Repeat("x", 40)))
+			}
+		}()
+		ok := srv.WaitLines(before+7, 90*time.Second)
+		lines, times := srv.Lines(), srv.LineTimes()
+		sess.close()
+		c.Res.Traces++
+		if !ok {
+			c.Res.Inconclusive++
+			continue
+		}
+		var obs, shown []string
+		for k := range lines {
+			w := times[k].Sub(t0).Nanoseconds() + int64(k)*int64(250*time.Millisecond)
+			obs = append(obs, fmt.Sprintf("%d:%d", len(lines[k]), w))
+			shown = append(shown, fmt.Sprintf("%dB@%.2fs", len(lines[k]), times[k].Sub(t0).Seconds()))
+		}
+		c.RunCases([]Case{{Desc: desc + ": " + strings.Join(shown, " "), Spec: []string{"spec10w " + strings.Join(obs, ",")}, Tag: "wire-burst/after-sasl",
+			Key: fmt.Sprintf("sasl/%d/%d", v, c.Seed), Replay: map[string]interface{}{"op": "wire-burst-after-sasl", "drop_first": dropFirst, "arrivals": shown}}})
+	}
+}
+
 func c10Wire(c *Ctx) {
 	for s := 0; s < c.Pick(3, 6); s++ {
 		n := c.R.Range(6, 9)
